@@ -16,6 +16,16 @@ Open Scope N_scope.
 (* The full statement at transaction granularity (model/Commute.v); NOT proved. *)
 Definition C02_full_statement : Prop := C02_full.
 
+(* ---- 0. the Prop-level equivalence used below determines the canonical dump ------------------ *)
+
+(* st_equiv = all look-ups agree (node rows with creator and detached flag, file rows, step rows,
+   dependency edges, stored step hashes, env rows, defer cap).  With unique keys in both states
+   (uniq_b: conjuncts of inv_b, plus uniqueness of env rows) it implies equality of the canonical
+   dumps, i.e. GraphDump.dump_eqb, the equality the E2 correspondence uses. *)
+Theorem C02_st_equiv_implies_equal_dumps :
+  forall s1 s2, st_equiv s1 s2 -> uniq_b s1 = true -> uniq_b s2 = true -> st_equivb s1 s2 = true.
+Proof. exact st_equiv_dump_eqb. Qed.
+
 (* ---- 1. declarations_commute ------------------------------------------------------------- *)
 
 (* (static, static), every state: two static declarations of two different ATTACHED creators.
